@@ -262,7 +262,10 @@ def infer (Γ : Ctx) : Nat → Env → Ast → IR ExprTy
       if full then
         let Δτ ← bindDecl n Δ decl τ
         let _ ← infer Γ n Δτ (← kid 2)
-      pure (.ty τ)
+      -- the value is the initial one when no step is made: the principal type joins both
+      match merge Γ.traits τ t0 with
+      | some m => pure (.ty m)
+      | none => .ill
     | .DECART => do
       let ts ← inferSets Γ n Δ e.kids
       if ts.length < 2 then .ill else pure (.ty (.coll (.tuple ts)))
